@@ -1,6 +1,7 @@
 """C02 — waiting on an event returns after its whole cascade, with exactly its errors."""
 import json
 import os
+import re
 
 import checklib
 
@@ -168,6 +169,20 @@ def run(ctx):
     # checklib re-runs a crashed case alone and forgives it when it then passes. A schedule dependent
     # panic of the code under test (or a wait that never returned) is not forgiven here: the process
     # death happened, whatever a second run does.
+    # full stderr of the harness processes (c02.stderr.<pid>): the message of a panic and the case it hit
+    import glob
+    deaths = []
+    for f in glob.glob(os.path.join(ctx.work, "c02.stderr.*")):
+        txt = open(f, errors="replace").read()
+        for m in re.finditer(r"(?m)^(panic: .*|fatal error: .*)$", txt):
+            k = txt.rfind("CASE ", 0, m.start())
+            payload = txt[k + 5:txt.find("\n", k)] if k >= 0 else ""
+            deaths.append((payload, m.group(1), " ".join(txt[m.start():m.start() + 1500].split())))
+    for payload, head, full in deaths:
+        ctx.log(f"panic in a harness process: {head[:200]}")
+        idx = next((i for i in cases if cases[i] == payload), None)
+        if idx is not None and "C02: " not in head:
+            gores[idx] = "CRASH " + full[:300]
     kept, hangs = 0, []
     for info in infos.values():
         for c in info["crashes"]:
@@ -209,7 +224,6 @@ def run(ctx):
         if g != m:
             bad.append(i)
     # tiny plans: exhaustive exploration of the plan on the transition system + coverage by the real runs
-    import re
     groups = {}
     for i in sorted(cases):
         hdr = cases[i].split(" ", 1)[0]
